@@ -6,11 +6,11 @@
   any stale messages, both build profiles (`Mode`).
 
   The full statement `coe_total` (every entry point returns a value or an error, never panics) is FALSE of the
-  current code. Four panic sites are reachable from device-supplied bytes; each has a `_counterexample` theorem (the
+  current code. Panic sites reachable from device-supplied bytes each have a `_counterexample` theorem (the
   witness is replayed on the real code by harness/src/bin/c16.rs in every run) and `coe_total_partial` is proved
   under hypotheses that exclude exactly these reply classes:
-    P1 c16/emergency-assert          `assert_ne!(service, Emergency)`: a reply whose CoE service nibble is 1
-    P2 c16/segment-length-underflow  `header.length - 3` (u16): a segment reply with mailbox length < 3 (checked builds)
+    (P1 `assert_ne!(service, Emergency)` was repaired by fix-c16-emergency: `coe_total_emergency_fixed`)
+    (P2 `header.length - 3` (u16) was repaired by fix-c16-segment-length: `coe_total_segment_length_fixed`)
     P3/P4 c16/sdo-info-length        `length as usize - 8` and `response[..length]`: an SDO-info reply whose length field
                                      is < 8 or exceeds the data present (all builds)
   Likewise the loops are only bounded by the device's good will: `info_terminates_counterexample` /
@@ -24,34 +24,33 @@ open Ec Ec.Coe Ec.Gen.Coe
 
 /-! ### coe_total -/
 
-/-- **coe_total (partial).** For every device that never sends a reply of the classes P1/P2 (reads), P1 (writes,
-    expedited read), P3/P4 (SDO info), every mailbox size, every stale queue, every counter value, both build profiles:
+/-- **coe_total (partial).** For EVERY device in the case of `sdo_read`, `sdo_read_array`, `sdo_read_expedited`,
+    `sdo_write`, `sdo_write_array`, and for every device that never sends a reply of class P3/P4 in the case of the SDO
+    information entry points — every mailbox size, every stale queue, every counter value, both build profiles:
     each entry point ends with a value or an error — never a panic (and the model's `outOfFuel` is an error value, see
     `segments_terminate_*` for what it stands for). -/
 theorem coe_total_partial {σ : Type} (w : World σ) (cfg : Cfg) (P : DevInv σ) (hw : WGood P w) (s : St σ)
     (hs : QGood P s) :
-    ((∀ m, P.msg m → ReadOk cfg m) →
-      (∀ fuel bufLen index access, Res.isPanic (sdoRead w cfg fuel bufLen index access s).1 = false) ∧
+    ((∀ fuel bufLen index access, Res.isPanic (sdoRead w cfg fuel bufLen index access s).1 = false) ∧
       (∀ (α : Type) (T : Dest α) fuel maxEntries index,
         Res.isPanic (sdoReadArray w cfg fuel T maxEntries index s).1 = false)) ∧
-    ((∀ m, P.msg m → NoEmergency cfg m) →
-      (∀ index access, Res.isPanic (sdoReadExpedited w cfg index access s).1 = false) ∧
+    ((∀ index access, Res.isPanic (sdoReadExpedited w cfg index access s).1 = false) ∧
       (∀ index access value, Res.isPanic (sdoWrite w cfg index access value s).1 = false) ∧
       (∀ index values, Res.isPanic (sdoWriteArray w cfg index values s).1 = false)) ∧
     ((∀ m, P.msg m → InfoLenOk cfg m) →
       (∀ listType, Res.isPanic (sdoInfoList w cfg listType s).1 = false) ∧
       Res.isPanic (sdoInfoQuantities w cfg s).1 = false) := by
-  refine ⟨fun hP => ⟨?_, ?_⟩, fun hP => ⟨?_, ?_, ?_⟩, fun hP => ⟨?_, ?_⟩⟩
+  refine ⟨⟨?_, ?_⟩, ⟨?_, ?_, ?_⟩, fun hP => ⟨?_, ?_⟩⟩
   · intro fuel bufLen index access
-    exact (sdoRead_safe w cfg P hP hw fuel bufLen index access s hs).1
+    exact (sdoRead_safe w cfg P hw fuel bufLen index access s hs).1
   · intro α T fuel maxEntries index
-    exact (sdoReadArray_safe w cfg P hP hw fuel T maxEntries index s hs).1
+    exact (sdoReadArray_safe w cfg P hw fuel T maxEntries index s hs).1
   · intro index access
-    exact (sdoReadExpedited_safe w cfg P hP hw index access s hs).1
+    exact (sdoReadExpedited_safe w cfg P hw index access s hs).1
   · intro index access value
-    exact (sdoWrite_safe w cfg P hP hw index access value s hs).1
+    exact (sdoWrite_safe w cfg P hw index access value s hs).1
   · intro index values
-    exact (sdoWriteArray_safe w cfg P hP hw index values s hs).1
+    exact (sdoWriteArray_safe w cfg P hw index values s hs).1
   · intro listType
     exact sdoInfoList_noPanic w cfg P hP hw listType s hs
   · exact sdoInfoQuantities_noPanic w cfg P hP hw s hs
@@ -67,16 +66,15 @@ theorem scriptWorld_good (Pm : List Nat → Prop) : WGood (scriptInv Pm) scriptW
   | cons e rest =>
     exact ⟨fun e' he' => hd e' (List.mem_cons_of_mem _ he'), fun m hm => hd e List.mem_cons_self m hm⟩
 
-/-- **coe_total (partial), scripted device.** For EVERY script of reply byte strings and every list of stale
-    messages in which no message is of class P1/P2: `sdo_read` of any destination size returns a value or an error. -/
-theorem coe_total_partial_script_read (cfg : Cfg) (script : List (List (List Nat))) (stale : List (List Nat)) (ctr : Nat)
-    (h1 : ∀ e ∈ script, ∀ m ∈ e, ReadOk cfg m) (h2 : ∀ m ∈ stale, ReadOk cfg m) (fuel bufLen index : Nat)
-    (access : SubIndex) :
+/-- **coe_total for sdo_read, scripted device.** For EVERY script of reply byte strings and every list of stale
+    messages (no exclusions): `sdo_read` of any destination size returns a value or an error. -/
+theorem coe_total_script_read (cfg : Cfg) (script : List (List (List Nat))) (stale : List (List Nat)) (ctr : Nat)
+    (fuel bufLen index : Nat) (access : SubIndex) :
     (∃ v, (sdoRead scriptWorld cfg fuel bufLen index access (St.init ctr script stale)).1 = .ok v) ∨
     (∃ e, (sdoRead scriptWorld cfg fuel bufLen index access (St.init ctr script stale)).1 = .err e) := by
   apply (Res.noPanic_iff _).mp
-  exact ((coe_total_partial scriptWorld cfg (scriptInv (ReadOk cfg)) (scriptWorld_good _) (St.init ctr script stale)
-    ⟨h1, h2⟩).1 (fun _ h => h)).1 fuel bufLen index access
+  exact (coe_total_partial scriptWorld cfg (scriptInv fun _ => True) (scriptWorld_good _) (St.init ctr script stale)
+    ⟨fun _ _ _ _ => trivial, fun _ _ => trivial⟩).1.1 fuel bufLen index access
 
 /-- The same for the SDO-information entry points and class P3/P4. -/
 theorem coe_total_partial_script_info (cfg : Cfg) (script : List (List (List Nat))) (stale : List (List Nat)) (ctr : Nat)
@@ -87,15 +85,17 @@ theorem coe_total_partial_script_info (cfg : Cfg) (script : List (List (List Nat
   exact ((coe_total_partial scriptWorld cfg (scriptInv (InfoLenOk cfg)) (scriptWorld_good _) (St.init ctr script stale)
     ⟨h1, h2⟩).2.2 (fun _ h => h)).1 listType
 
-/-! Witnesses: the full statement fails at each site (`cfg32`: 32-byte mailboxes, checked build, assertion compiled in). -/
+/-! Witnesses: the full statement fails at each remaining site (`cfg32`: 32-byte mailboxes, checked build). -/
 
 /-- An emergency message (service 1) as the answer to an upload request. -/
 def emergencyReply : List Nat := [0x0a, 0, 0, 0, 0, 0x63, 0, 0x10, 0x34, 0x12, 0x01, 1, 2, 3, 4, 5]
 
-/-- P1: `assert_ne!(headers.coe_header.service, CoeService::Emergency)`. -/
-theorem coe_total_counterexample_emergency :
-    Res.isPanic (sdoRead scriptWorld cfg32 4 4 0x2000 (.index 0) (St.init 1 [[emergencyReply]] [])).1 = true ∧
-    Res.isPanic (sdoWrite scriptWorld cfg32 0x2000 (.index 0) [1, 2] (St.init 1 [[emergencyReply]] [])).1 = true := by
+/-- P1 repaired (fix-c16-emergency): the former witness of `assert_ne!(headers.coe_header.service, Emergency)` is now
+    reported as `MailboxError::Emergency` with the error code and register the device sent (0x1234, 1). -/
+theorem coe_total_emergency_fixed :
+    (sdoRead scriptWorld cfg32 4 4 0x2000 (.index 0) (St.init 1 [[emergencyReply]] [])).1 = .err (.emergency 0x1234 1) ∧
+    (sdoWrite scriptWorld cfg32 0x2000 (.index 0) [1, 2] (St.init 1 [[emergencyReply]] [])).1 =
+      .err (.emergency 0x1234 1) := by
   decide
 
 /-- Normal upload response announcing 100 bytes while carrying 6: the client starts the segmented loop. -/
@@ -105,9 +105,10 @@ def initiate100 : List Nat :=
 /-- Segment response whose mailbox header says length 2. -/
 def shortSegment : List Nat := [2, 0, 0, 0, 0, 0x33, 0, 0x30, 0x61, 0, 0, 0, 0, 0, 0, 0]
 
-/-- P2: `headers.header.length - 3` underflows in a checked build; a wrapping build returns `Error::Internal`. -/
-theorem coe_total_counterexample_segment_length :
-    Res.isPanic (sdoRead scriptWorld cfg32 4 100 0x2000 (.index 0) (St.init 1 [[initiate100], [shortSegment]] [])).1 = true ∧
+/-- P2 repaired (fix-c16-segment-length): the former witness of the `headers.header.length - 3` underflow is now
+    `Error::Internal` in both build profiles. -/
+theorem coe_total_segment_length_fixed :
+    (sdoRead scriptWorld cfg32 4 100 0x2000 (.index 0) (St.init 1 [[initiate100], [shortSegment]] [])).1 = .err .internal ∧
     (sdoRead scriptWorld { cfg32 with mode := .wrapping } 4 100 0x2000 (.index 0)
       (St.init 1 [[initiate100], [shortSegment]] [])).1 = .err .internal := by
   decide
@@ -124,15 +125,6 @@ theorem coe_total_counterexample_info_length :
     Res.isPanic (sdoInfoQuantities scriptWorld { cfg32 with mode := .wrapping } (St.init 1 [[infoLen 64]] [])).1 = true := by
   decide
 
-/-- With the assertion compiled out (`assertEmergency = false`) the code behind it does report an emergency error,
-    but with the wrong contents: it trims `HeadersRaw::PACKED_LEN` = 12 bytes although the emergency data starts right
-    after the 8-byte mailbox + CoE header, so error code 0x1234 / register 1 come out as 0x0302 / 4 (C15,
-    `emergency_reported`). -/
-theorem coe_total_emergency_without_assert :
-    (sdoRead scriptWorld { cfg32 with assertEmergency := false } 4 4 0x2000 (.index 0)
-      (St.init 1 [[emergencyReply]] [])).1 = .err (.emergency 0x0302 4) := by
-  decide
-
 /-! ### reads_inside_reply -/
 
 /-- **reads_inside_reply.** (1) Every view the client derives from the `ReceivedPdu` it was given (`trim_front`)
@@ -142,7 +134,7 @@ theorem coe_total_emergency_without_assert :
 theorem reads_inside_reply {σ : Type} (w : World σ) (cfg : Cfg) (pre post : List Nat) :
     (∀ (p : Pdu) lo hi ct, p.Inside lo hi → (p.trimFront ct).Inside lo hi) ∧
     (∀ (ρ : Type) (u : List Nat → Res ρ) v (p : Pdu), p.start + p.len ≤ p.frame.length →
-      triage cfg u v p = triageB cfg.assertEmergency u v p.bytes) ∧
+      triage cfg u v p = triageB u v p.bytes) ∧
     (∀ (p : Pdu) consumed buf, p.start + p.len ≤ p.frame.length →
       infoStep cfg p consumed buf = infoStepB cfg.mode p.bytes consumed buf) ∧
     (∀ fuel bufLen index access s,
@@ -225,13 +217,7 @@ theorem segments_terminate_counterexample (n : Nat) :
 
 /-! ### Non-vacuity -/
 
-/-- The hypotheses of `coe_total_partial` are satisfiable by a device that does answer: an expedited upload response is
-    in all three reply classes, and the client returns its four bytes. -/
-example : ReadOk cfg32 [0x0a, 0, 0, 0, 0, 0x13, 0, 0x30, 0x43, 0x00, 0x20, 0x00, 0xde, 0xad, 0xbe, 0xef] := by
-  constructor
-  · intro _; decide
-  · intro _; decide
-
+/-- A device that does answer: the client returns the four bytes of an expedited upload response. -/
 example : (sdoRead scriptWorld cfg32 4 4 0x2000 (.index 0)
     (St.init 1 [[[0x0a, 0, 0, 0, 0, 0x13, 0, 0x30, 0x43, 0x00, 0x20, 0x00, 0xde, 0xad, 0xbe, 0xef]]] [])).1 =
       .ok [0xde, 0xad, 0xbe, 0xef] := by decide
